@@ -13,6 +13,7 @@ ROOT = os.path.dirname(os.path.dirname(os.path.abspath(__file__)))
 # which acceptor rejection kinds (kind of the event at which the model could no longer follow
 # the observation; see ev_kind in Check/RunCheck.v) count against which property
 RUN_SLICE = {
+    "C01": set(),
     "C02": {2, 5, 99},
     "C03": {1, 2, 4, 5, 99},
     "C04": {1, 2, 4, 5, 6},
@@ -54,7 +55,7 @@ def run_stream(ctx, spec, st, replay, scale, hbin, coqc_shards):
         master, frm, count, profile, shards = rp["master"], rp["idx"], 1, rp["profile"], 1
     t0 = time.time()
     p = subprocess.run([hbin, "run", "--master", str(master), "--from", str(frm), "--count", str(count),
-                        "--shards", str(shards), "--profile", profile, "--out-dir", out],
+                        "--shards", str(shards), "--profile", profile, "--out-dir", out] + (["--values"] if st.get("values") else []),
                        stdout=subprocess.PIPE, stderr=subprocess.STDOUT, text=True, timeout=3000)
     t_h = time.time() - t0
     if p.returncode != 0:
@@ -112,6 +113,16 @@ def run_stream(ctx, spec, st, replay, scale, hbin, coqc_shards):
                 idx = int(kv["idx"])
                 mfails.append({"stream": "run", "master": master, "idx": idx, "profile": profile, "property": pid,
                                "kind": "monitor-false", "monitor": "judge_twin", "verdict": m.group(1), "observation": obs.get(idx, {})})
+    for vf, (rc, text) in outs.items():
+        for m in re.finditer(r'"VALS ([^"]*) END"', text):
+            kv = dict(x.split("=", 1) for x in m.group(1).split())
+            dist["value_sets_checked"] += 1
+            dist["values_checked_total"] += int(kv.get("n", 0))
+            if pid == "C01" and kv.get("C01") == "0":
+                idx = int(kv["idx"])
+                mfails.append({"stream": "run", "master": master, "idx": idx, "profile": profile, "property": pid,
+                               "kind": "monitor-false", "monitor": "judge_vals (a value handed to the objective function does not conform)",
+                               "verdict": m.group(1), "observation": obs.get(idx, {})})
     for idx in second_process_diffs:
         dist["second_process_differs"] += 1
         if pid == "C09":
@@ -584,6 +595,23 @@ PROPS = {
             "no panic / no hang of the real code on every stream (run: watchdog on every poll; ops/spec/guess: catch_unwind; cli: exit code 101 / 'panicked' / 60 s limit)",
             "verbose on/off gives the same exit code and stdout (cli stream, sequential runs)",
             "division of the finite sum by the sample size is not covered by mean_sum_finite",
+        ],
+    },
+    "C01": {
+        "propfile": "theories/Properties/C01.v",
+        "coq_targets": ["theories/Properties/C01.vo"],
+        "checkers": ["OpsCheck", "RunCheck", "ValsCheck"],
+        "streams": [{"kind": "ops", "name": "mixed", "profile": "mixed", "count": {"quick": 320, "thorough": 8000}, "salt": 1},
+                    {"kind": "ops", "name": "long", "profile": "long", "count": {"quick": 64, "thorough": 1500}, "salt": 101},
+                    {"kind": "run", "name": "values", "profile": "mixed", "values": True, "count": {"quick": 96, "thorough": 1500}, "salt": 102}],
+        "assumptions": [
+            "partial: finiteness of reals without both bounds is a side condition (overflow of the Cauchy sample under an astronomically large adaptive scale); monitored on every observed value",
+            "operators are modelled as executable relations (Ops.mut_check / Ops.cross_check) - which outputs are possible for SOME RNG state",
+            "run level: the theorem chain init/guess -> mutation (-> crossover, see C12) is not yet lifted through the controller model's oracle stream (run_all_conform); every evaluate argument of whole runs is checked by judge_vals",
+        ],
+        "tested_not_proved": [
+            "that real mutate/crossover refine the relations: ops stream (chains up to 120 operator calls per case, maps at their bounds, huge ints, huge scales)",
+            "every parameter set passed to the objective function in whole runs (all specs of the run stream, with and without guess, all schedules) conforms: run stream with --values",
         ],
     },
 }
